@@ -94,3 +94,24 @@ Qed.
 (* the two expectations of check 291 / 1691 coincide: agreement with the generated definition IS agreement with the native word *)
 Lemma check_toflags_codes b flags : (toFlags (opts_of_bits b) =? flags) = (nflags_of_bits b =? flags).
 Proof. rewrite toFlags_of_bits. reflexivity. Qed.
+
+(* C17: the conv.Options the HTTP-mapping harness builds from the model's option record (c17Opts: EnableHttpMapping always on) *)
+From DG Require HttpMap.
+Definition opts_of_hopts (h : HttpMap.hopts) : toFlags_opts :=
+  {| toFlags_opts_DisallowUnknownField := false; toFlags_opts_EnableHttpMapping := true; toFlags_opts_EnableValueMapping := false;
+     toFlags_opts_NoBase64Binary := HttpMap.o_nob64 h; toFlags_opts_ReadHttpValueFallback := HttpMap.o_rhf h;
+     toFlags_opts_String2Int64 := false; toFlags_opts_WriteDefaultField := HttpMap.o_wd h;
+     toFlags_opts_WriteOptionalField := HttpMap.o_wo h; toFlags_opts_WriteRequireField := HttpMap.o_wr h |}.
+
+Lemma toFlags_hopts h :
+  flag_on (toFlags (opts_of_hopts h)) NF_HTTP_MAPPING = true /\
+  flag_on (toFlags (opts_of_hopts h)) NF_ALLOW_UNKNOWN = true /\
+  flag_on (toFlags (opts_of_hopts h)) NF_WRITE_REQUIRE = HttpMap.o_wr h /\
+  flag_on (toFlags (opts_of_hopts h)) NF_WRITE_DEFAULT = HttpMap.o_wd h /\
+  flag_on (toFlags (opts_of_hopts h)) NF_WRITE_OPTIONAL = HttpMap.o_wo h /\
+  flag_on (toFlags (opts_of_hopts h)) NF_TRACE_BACK = HttpMap.o_rhf h /\
+  flag_on (toFlags (opts_of_hopts h)) NF_NO_BASE64 = HttpMap.o_nob64 h /\
+  flag_on (toFlags (opts_of_hopts h)) NF_VALUE_MAPPING = false /\ flag_on (toFlags (opts_of_hopts h)) NF_STRING_INT = false.
+Proof. pose proof (toFlags_tests (opts_of_hopts h)) as T. cbn [opts_of_hopts toFlags_opts_WriteDefaultField toFlags_opts_DisallowUnknownField
+    toFlags_opts_EnableValueMapping toFlags_opts_EnableHttpMapping toFlags_opts_String2Int64 toFlags_opts_WriteRequireField
+    toFlags_opts_NoBase64Binary toFlags_opts_WriteOptionalField toFlags_opts_ReadHttpValueFallback negb] in T. tauto. Qed.
